@@ -5,7 +5,7 @@ decryption round keys (in the reversed order written by rijndaelKeySetupDec). No
 -/
 import RelicVerif.Lemmas.RijndaelBase
 
-namespace Relic.Lemmas.Rijndael
+namespace Relic.Lemmas.Rijndael.Dec
 open Relic.Spec.Aes Relic.Model Relic.Gen.AesTables
 open Relic.Lemmas.Aes (row mixColumn_four mixColumns_sixteen invShiftRows_sixteen exists_sixteen getD_length16
   addRoundKey_length16 invMixColumns_length invShiftRows_length invSubBytes_length)
@@ -365,4 +365,4 @@ theorem decrypt_eq (rk : Array UInt32) (dk : List Bytes) (nr : Nat) (hok : RkOK 
   rw [eoff]
   exact decFinal_spec rk _ _ _ (dfold_length dk nr hlen hk _ _ hS0) hK0 hwn
 
-end Relic.Lemmas.Rijndael
+end Relic.Lemmas.Rijndael.Dec
